@@ -13,6 +13,13 @@ def replay(q, args, kwargs):
     import logging
     logging.disable(logging.CRITICAL)
     h = runner.load_module(H, 'h_c06_native')
+    if q.meta.get('h') == 'chain':
+        bad = h.chain_problems(*args)
+        if not bad:
+            return {'violated': False}
+        files = h.chain_build(*args)[0]
+        text = ''.join('--- %s\n%s' % (p, t) for p, t in sorted(files.items()))
+        return {'violated': True, 'known': None, 'what': '%s\n%s' % ('; '.join(bad), text), 'replay': {'chain_args': args}}
     hh, m0, m1, m2, m3, extra, form, attr, via = args
     n = len(h.HIER[hh])
     ms = [m0, m1 if n > 1 else 10, m2 if n > 2 else 10, m3 if n > 3 else 10]
@@ -58,9 +65,12 @@ def run(tier, seed):
     qs.append(Query('check__twin', src + '\n\n' + copy_fn(src, 'check', 'check__twin',
                                                         'h == 1 and via == 0 and form == 0 and m0 == 0 and m1 == 0 and extra == 10 and attr == 0', twin=True),
                     'check__twin', 'twin', 60))
+    qs.append(Query('check_chain', src, 'check_chain', 'main', 300, per_path=60, meta={'h': 'chain'}, label='E'))
+    qs.append(Query('check_chain__twin', src + '\n\n' + copy_fn(src, 'check_chain', 'check_chain__twin', 'dk == 2 and depth == 0 and form == 0 and via == 0', twin=True),
+                    'check_chain__twin', 'twin', 60, meta={'h': 'chain'}))
     runner.run_queries(PID, qs)
     rep.absorb(qs, replay)
-    rep.functions = ['assistant.assist (attribute branch)', 'assistant.location', 'EvalCtx.evaluate/declarations',
+    rep.functions = ['FuncScope.resolve (descriptor-decorated methods)', 'assistant.assist (attribute branch)', 'assistant.location', 'EvalCtx.evaluate/declarations',
                      'ClassObject._attrs/bases/_cls_attrs', 'InstanceValue._attrs/_assigned', 'SourceScope.assigns',
                      'FuncScope.get_argument/resolve', 'ImportedName.resolve', 'SourceModule', 'resolve_star_imports']
     rep.bounds = ['9 hierarchy shapes (1..4 classes, source and builtin bases mixed in either order, single and multiple inheritance without repeated ancestors, a builtin base), one member per '
@@ -68,6 +78,9 @@ def run(tier, seed):
                   'another method / property or none, names from a 2-name alphabet (overrides at every level), root class in the same module or '
                   'reached by from-import / module attribute / star import, queried through an instance, the class, or self in a subclass method'
                   + (' (quick: reduced second-member options)' if tier == 'quick' else '')]
+    rep.bounds.append('split forms are asked twice: on a fresh project and on a project that has already answered the same question through the other access path (class <-> instance)')
+    rep.bounds.append('descriptor chains: obj.aa.zz where aa is decorated by property / a descriptor class with its own __get__ / one inheriting __get__ over 1-2 levels / '
+                      'from a base in another module, x 0..2 subclasses x same module or lib.py x instance / self (60 programs)')
     rep.assumptions = ['solver-enumerated (E): every path is one concrete generated project (in-memory files) through the real assist()/location()',
                        'oracle: the classes are executed by CPython (__mro__, vars()); "instance assignment if there is one" is syntactic (any '
                        'self.attr = ... in a method of a class of the MRO)',
@@ -81,5 +94,5 @@ def run(tier, seed):
 
 def replay_file(obj):
     class Q:
-        meta = {}
-    return report_violation(PID, replay(Q, obj['args'], {}))
+        meta = {'h': 'chain'} if 'chain_args' in obj else {}
+    return report_violation(PID, replay(Q, obj.get('chain_args') or obj['args'], {}))
